@@ -23,6 +23,8 @@ ASSUMPTIONS = [
     "gml/dot documents written by the harness use non negative integer identifiers (or equal-width alphabetic names in dot); the expected numbering is by increasing identifier; for a bipartite document whose nodes are not listed in increasing order both the numbering by identifier and the numbering by order of appearance are accepted",
     "mutated gml/dot documents: only the exception type is checked (a graph or ValueError)",
     "DirectedGraph.from_file reads with type 'digraph' (there is no class for 'dag'), so that route does not check the acyclicity test",
+    "objects: only legal edits are made (add_edge of a pair the type allows, remove_edge of a present edge, update_vertex_number above the current count); 'the graph as it is at writing time' is the harness-side model; for random constructions (gnp, glrd, ... , pyramids and trees, whose structure is C15's subject) and after split_random_edges / add_random_missing_edges the model is read from has_edge on every pair of vertices",
+    "objects: a DOT text written by the tree is read back by the tree (pydot, ~50 ms) in a quarter of the quick cases and in every thorough enumerated case; otherwise by a harness-side reader of the plain dialect pydot writes (one statement per line, decimal identifiers, numbering by increasing identifier), falling back to the tree reader when the text is not in that dialect",
 ]
 
 FORMATS = {
